@@ -749,9 +749,15 @@ package fsutil
 //@   at call FollowLinks: same_view: arg0 == fs && arg1 == opt.FollowPaths
 //@   at call patternmatcher.New#1: caller_excludes: arg0 == opt.ExcludePatterns
 
+// the prefix a pattern stands for in the pruning tests: the pattern minus at most ONE trailing
+// glob component ("x/**" or "x/*" -> "x"); stripping two ("a/*/**" -> "a") turns a wildcard
+// pattern into a plain prefix and prunes directories that contain matches (found and repaired)
 //@ func patternWithoutTrailingGlob
 //@   property C10
-//@   ensures stripped: result == strings.TrimSuffix(strings.TrimSuffix(p.String(), "/**"), "/*")
+//@   ensures at_most_one_glob: result == p.String() || result + "/**" == p.String() || result + "/*" == p.String()
+//@   ensures strips_doublestar: strings.HasSuffix(p.String(), "/**") ==> result + "/**" == p.String()
+//@   ensures strips_star: !strings.HasSuffix(p.String(), "/**") && strings.HasSuffix(p.String(), "/*") ==> result + "/*" == p.String()
+//@   ensures plain: !strings.HasSuffix(p.String(), "/**") && !strings.HasSuffix(p.String(), "/*") ==> result == p.String()
 
 //@ func isNotExist
 //@   property C10 C09
